@@ -57,6 +57,14 @@ type Property struct {
 	ProbeNames []string
 }
 
+// OutDir is where evidence and replay files are written (VERIF_OUT_DIR, default VerifDir()).
+func OutDir() string {
+	if d := os.Getenv("VERIF_OUT_DIR"); d != "" {
+		return d
+	}
+	return VerifDir()
+}
+
 func VerifDir() string {
 	if d := os.Getenv("VERIF_DIR"); d != "" {
 		return d
@@ -583,8 +591,8 @@ func (p *Property) check(tier string) int {
 			return 2
 		}
 	}
-	os.MkdirAll(filepath.Join(VerifDir(), "evidence"), 0o755)
-	os.MkdirAll(filepath.Join(VerifDir(), "replays"), 0o755)
+	os.MkdirAll(filepath.Join(OutDir(), "evidence"), 0o755)
+	os.MkdirAll(filepath.Join(OutDir(), "replays"), 0o755)
 
 	known := loadKnown(p.ID)
 	knownKeys := map[string]knownFinding{}
@@ -848,7 +856,7 @@ func (p *Property) check(tier string) int {
 		}
 		rf := replayFile{Property: p.ID, Seed: seed, Run: g.first.Run, Violation: v, Digest: res.Digest, Shrunk: shrunk, ShrinkLog: shrinkLog, Plan: plan}
 		name := fmt.Sprintf("%s-%d-%d-%s.json", p.ID, seed, g.first.Run, sanitize(v.Component+"-"+v.Class))
-		path := filepath.Join(VerifDir(), "replays", name)
+		path := filepath.Join(OutDir(), "replays", name)
 		b, _ := json.MarshalIndent(rf, "", " ")
 		os.WriteFile(path, b, 0o644)
 		fmt.Printf("[%s] %s — %s (seen in %d runs; first run %d)\n", p.ID, k, v.Message, g.count, g.first.Run)
@@ -926,7 +934,7 @@ func (p *Property) check(tier string) int {
 	if v := os.Getenv("VERIF_EVIDENCE_NAME"); v != "" {
 		evName = v
 	}
-	if err := os.WriteFile(filepath.Join(VerifDir(), "evidence", evName+".json"), eb, 0o644); err != nil {
+	if err := os.WriteFile(filepath.Join(OutDir(), "evidence", evName+".json"), eb, 0o644); err != nil {
 		fmt.Printf("[%s] cannot write evidence: %v\n", p.ID, err)
 		return 2
 	}
